@@ -290,6 +290,16 @@ void h_transform(void) {
     bool ok = true; for (int j = 0; j < N; ++j) ok = ok && c.raw(MAPA[j]) == (sa[MAPA[j]] ^ sb[MAPB[j]]);
     vp_assert(ok, "static.transform2_result_by_colour");
     vp_assert(same_raw(a, sa) && same_raw(b, sb) && c.frame_ok(), "static.transform2_frame");
+    // the other const / mutable overloads of the two-source transform pair the sources by colour just the same
+    { auto&& pa = a.ref(); auto&& pb = b.ref();
+      visit_log l1; xor_op<MA, MB> o1{&a, &b, &l1}; gil::static_transform(pa, b.cref(), d, o1);
+      vp_assert(once_per_colour(l1, 2, MAPA, MAPB, MAPA), "static.transform2_mutable_const_once_per_colour");
+      visit_log l2; xor_op<MA, MB> o2{&a, &b, &l2}; gil::static_transform(a.cref(), pb, d, o2);
+      vp_assert(once_per_colour(l2, 2, MAPA, MAPB, MAPA), "static.transform2_const_mutable_once_per_colour");
+      visit_log l3; xor_op<MA, MB> o3{&a, &b, &l3}; gil::static_transform(pa, pb, d, o3);
+      vp_assert(once_per_colour(l3, 2, MAPA, MAPB, MAPA), "static.transform2_mutable_mutable_once_per_colour");
+      bool ok2 = true; for (int j = 0; j < N; ++j) ok2 = ok2 && c.raw(MAPA[j]) == (sa[MAPA[j]] ^ sb[MAPB[j]]);
+      vp_assert(ok2 && same_raw(a, sa) && same_raw(b, sb) && c.frame_ok(), "static.transform2_overloads_result_and_frame"); }
     // one source: B -> A
     visit_log lg1; xor_op<MB, MB> op1{&b, &b, &lg1};
     gil::static_transform(b.cref(), d, op1);
